@@ -32,6 +32,10 @@ var (
 	alphaExt = &alphabet{name: "ext", scopes: s5, probeSc: s5, errSc: s3, extra: []int{kHostErr, kMarkU, kMarkS}, extraSc: true,
 		filters: []int{fURLRegex, fHeaderRegex, fPort, fQS, fQSAny}, aggs: []bool{false, true}, prios: []int{0, 1},
 		describe: "ext: scopes {absent,[],[request],[response],[request,response]} on probe, fifo (aggregateErrors false/true), priority ({0,1}), url.RegexFilter (modifier, modifier+else), header.RegexFilter, port.Filter (modifier only: the types take no else), querystring.Filter with name+value and with a name only (modifier, modifier+else); erroring leaf with scope {absent,[request],[response]}; Host-append, url.Modifier, status.Modifier with every scope their type implements"}
+	// error multisets: leaves that return the SAME error text, in flat and nested aggregating / halting groups
+	alphaAgg = &alphabet{name: "agg", scopes: []int{scAbsent}, probeSc: []int{scAbsent}, errSc: []int{scAbsent}, extra: []int{kDupErr},
+		filters: nil, aggs: []bool{false, true}, prios: []int{0},
+		describe: "agg: fifo (aggregateErrors false/true) and priority ({0}) groups without scope over probe, erroring leaf with a unique text, erroring leaf whose text is the same for every instance (requests and responses)"}
 	alphaExtMid = &alphabet{name: "extmid", scopes: s3, probeSc: s3, errSc: []int{scAbsent}, extra: nil,
 		filters: []int{fURLRegex, fHeaderRegex, fPort}, aggs: []bool{false, true}, prios: []int{0, 1},
 		describe: "extmid: scopes {absent,[request],[response]} on probe, fifo (aggregateErrors false/true), priority ({0,1}), url.RegexFilter (modifier, modifier+else), header.RegexFilter and port.Filter (modifier only); erroring leaf without scope"}
